@@ -303,8 +303,26 @@ func c07CSVIn(c *Ctx, res *types.Named) (encF, decF map[string]bool) {
 	_ = userParam(enc, 0)
 	for i, col := range cols {
 		f := resultFieldIn(col, "Result")
+		inlineWire := false
+		if f == "" {
+			// the wire-format helper written in place: `var buf bytes.Buffer; r.Headers.Write(&buf);
+			// hdr = append(buf.Bytes(), '\r', '\n')` feeding base64(hdr)
+			if why, ok := inlineHeaderWire(enc, col); ok {
+				f, inlineWire = "Headers", true
+			} else if why != "" {
+				c.Fail(fmt.Sprintf("csv-column:%d:encode", i), rCol, why, c.at(writes[0]))
+				encField[i] = "Headers"
+				encF["Headers"] = true
+				continue
+			}
+		}
 		encField[i] = f
 		key := fmt.Sprintf("csv-column:%d:encode", i)
+		if inlineWire {
+			encF[f] = true
+			c.Pass(key, rCol, "Headers via base64(StdEncoding) of the wire format written in place", c.at(writes[0]))
+			continue
+		}
 		if f == "" {
 			c.Fail(key, rCol, "column is not computed from a Result field", c.at(writes[0]))
 			continue
@@ -568,6 +586,49 @@ func csvDecodeConv(dec *ssa.Function, loads []ssa.Value, st *ssa.Store, tc strin
 		return "base64.NewDecoder(StdEncoding) → ReadMIMEHeader", true
 	}
 	return "no frozen conversion for " + tc, false
+}
+
+// inlineHeaderWire: col is base64.StdEncoding.EncodeToString(x) where x derives only from the bytes
+// of a local bytes.Buffer into which the result's own Headers were written with http.Header.Write
+// (nil when there are no headers), with nothing but the CRLF terminator appended.
+func inlineHeaderWire(enc *ssa.Function, col ssa.Value) (string, bool) {
+	call, ok := col.(*ssa.Call)
+	if !ok || callName(&call.Call) != "(*encoding/base64.Encoding).EncodeToString" || describeVal(call.Call.Args[0]) != "*StdEncoding" {
+		return "", false
+	}
+	var buf ssa.Value
+	flowsFrom(call.Call.Args[1], func(v ssa.Value) bool {
+		if bc, isCall := v.(*ssa.Call); isCall && callName(&bc.Call) == "(*bytes.Buffer).Bytes" {
+			buf = bc.Call.Args[0]
+		}
+		return false
+	})
+	if buf == nil {
+		return "", false
+	}
+	ws := callsNamed(enc, "(net/http.Header).Write", "(net/http.Header).WriteSubset")
+	if len(ws) != 1 {
+		return fmt.Sprintf("%d http.Header.Write calls feed the headers column", len(ws)), false
+	}
+	w := ws[0].(*ssa.Call)
+	if describeVal(w.Call.Args[0]) != "arg0.Headers" {
+		return "the headers column serialises " + describeVal(w.Call.Args[0]) + " instead of the result's own headers", false
+	}
+	if mi, isMI := w.Call.Args[1].(*ssa.MakeInterface); !isMI || mi.X != buf {
+		return "the headers are written into a different buffer than the one that is encoded", false
+	}
+	rewrites := ""
+	eachInstr(enc, func(i ssa.Instruction) {
+		if ci, isCI := i.(ssa.CallInstruction); isCI {
+			if n := callName(ci.Common()); strings.HasPrefix(n, "strings.") && n != "strings.NewReader" || strings.HasPrefix(n, "bytes.") && n != "bytes.NewReader" {
+				rewrites = n
+			}
+		}
+	})
+	if rewrites != "" {
+		return "the CSV encoder rewrites text with " + rewrites, false
+	}
+	return "", true
 }
 
 // isHeaderWireWriter: g(h http.Header) serialises exactly its parameter with http.Header.Write
